@@ -26,6 +26,15 @@ CURATED = [
     'div>b>p', 'p>b>div', 'span>div>span', 'div>br/+p', 'ul>li*2>br/', 'x-y>z-w/', 'div#a>div#b>div#c', 'main.m>p.p*3',
     'li.i*3', 'p#x+p#y', 'div.a{t}', 'div.a>{t}', 'span.s+div.d', 'b.x>i.y', 'body.home>div#page', 'html>body>p',
 ]
+# text values with fields: with children present the children take the place of the first field ("child slot"), the
+# other fields print their placeholder (default output.field); all of it is content that formatting must not change
+CURATED_FIELDS = [
+    'div{${0}${1:x}}>p', 'div{a ${0} b}>p', 'div{${1:x}${0}}>p+q', 'p{${0} ${1:x} y}>b', 'div{pre ${0}${2:ph} post}>ul>li*2',
+    'div{${1:x}}>p', 'p{${1:a}${2:b}}>b+i', 'div{${0}${1:x}${2:y}z}>section>p', 'ul>li{${0}${1:t}}*2>div', 'div{${1:a}-${0}-${2:b}}>p+p',
+    'div>{${0}${1:x}}>p', 'div>{a${0}b${1:c}}>p+span', 'section{${1}${2:two words}}>div>p', 'div{x${0}}>p{${1:y}${2:z}}>em',
+    'p[title="${1:v}"]{${2:w}}', 'div{${0}${1:l1}}>p^div{${1:x}${0}y}>ul', 'span{${0}${1:x}}>b', 'div{${0}${1:x}}>span+em',
+    'div{${0}${1:x}}>{t}+p', 'nav{${2:b}${1:a}${0}}>ul>li', 'div.c#i{${0}${1:x}}>p.d',
+]
 CURATED_XSL = [
     'xsl:variable[name=a select=b]>x', 'xsl:with-param[name=a select=b]{t}', 'xsl:variable[name=a select=b]',
     'vare>x', 'wp>y', 'tm>ap', 'choose', 'xsl:if[test=a]>val', 'ap>wp*2', 'tm.c>vare#i>p', 'xsl>tm', 'call>wp{t}',
@@ -164,13 +173,14 @@ def check_indent(abbr, syntax, options, void_names):
 
 def abbreviations(rng, n_random, syntax):
     xsl = syntax == 'xsl'
-    for a in CURATED:
+    for a in CURATED + CURATED_FIELDS:
         yield a
     if xsl:
         for a in CURATED_XSL:
             yield a
     for _ in range(n_random):
-        yield render_abbr(gen_tree(rng, depth=rng.randint(1, 4), width=rng.randint(1, 3), snippets=rng.random() < 0.5, xsl=xsl))
+        yield render_abbr(gen_tree(rng, depth=rng.randint(1, 4), width=rng.randint(1, 3), snippets=rng.random() < 0.5, xsl=xsl,
+                                   fields=rng.random() < 0.4))
 
 
 def cosmetic_cases(rng, n_random, rows):
